@@ -458,6 +458,28 @@ def check_C18(tier, seed):
     fmt_small = [dict(c, opts=dict(c["opts"], rustfmt=True)) for c in L[:6]]
     fgroups += [{"id": "f-fmt-many-%d" % i, "cases": [fmt_small[(i + q) % len(fmt_small)] for q in range(3 * (os.cpu_count() or 16))], "schedule": []} for i in range(2)]
     evE = run_vdriver_raw("sched", fgroups, "C18_E")
+    # (v+) true parallelism inside one phase: N threads run the same call again and again and leave the sync point in front of the struct
+    #      phase (resp. in front of the stage analysis) together, on shaders whose type walk is deep (14 nested structs under each of many
+    #      buffers) or whose call graph is; one more process runs each of them alone for reference
+    def deep_types(n_buf, depth):
+        T = {"structs": [], "globals": [], "consts": [], "overrides": [], "functions": [], "entries": []}
+        for b in range(n_buf):
+            T["structs"].append({"name": "N%d_0" % b, "members": [{"name": "v", "ty": F.VEC4}]})
+            for l in range(1, depth):
+                T["structs"].append({"name": "N%d_%d" % (b, l), "members": [{"name": "inner", "ty": {"k": "struct", "name": "N%d_%d" % (b, l - 1)}}, {"name": "w", "ty": F.VEC4}]})
+            T["globals"].append({"name": "deep%d" % b, "space": "storage_r", "group": "0", "binding": str(b), "ty": {"k": "struct", "name": "N%d_%d" % (b, depth - 1)}})
+        T["entries"].append({"name": "main", "stage": "compute", "params": [], "wg": ["1"], "body": [{"k": "access", "g": "deep0", "how": "addr"}]})
+        return T
+    deep = [{"id": "h-deep-%d" % i, "family": "history", "S": S_, "opts": F.opts(enc=True, mv="glam"), "repeat": 0}
+            for i, S_ in enumerate([deep_types(6, 14), deep_types(24, 13), deep_types(3, 9), F.chain(30, True), F.diamond(12, True)])]
+    evH0 = run_vdriver_raw("gen", deep, "C18_H0", extra=["--no-project", "--no-s"])
+    ncpu = os.cpu_count() or 16
+    bgroups = []
+    for i, c in enumerate(deep):
+        for point, rounds in (("stages", 40 if quick else 300), ("bind_group_data", 10 if quick else 60)):
+            bgroups.append({"id": "b-%d-%s" % (i, point), "cases": [c] * min(ncpu, 16), "schedule": [], "barrier": point, "rounds": rounds})
+    bgroups.append({"id": "b-mixed", "cases": [deep[q % len(deep)] for q in range(min(ncpu, 16))], "schedule": [], "barrier": "stages", "rounds": 40 if quick else 300})
+    evH = run_vdriver_raw("sched", bgroups, "C18_H", timeout=1200)
     # (v') one long history in one process: 300 calls alternating over the shaders, then every shader once more
     longL = [dict(L[(7 * q) % len(L)], repeat=0) for q in range(300 if quick else 3000)] + [dict(c, repeat=0) for c in L]
     evF = run_vdriver_raw("gen", longL, "C18_F", extra=["--no-project", "--no-s"])
@@ -481,10 +503,10 @@ def check_C18(tier, seed):
     order = []
     total = 0
     env_events = []
-    for tag, evs in (("A", evA), ("B", evB), ("C", evC), ("D", evD), ("E", evE), ("F", evF), ("G", evG)):
+    for tag, evs in (("A", evA), ("B", evB), ("C", evC), ("D", evD), ("E", evE), ("F", evF), ("G", evG), ("H0", evH0), ("H", evH)):
         if tag == "D":
             sched_events = [e for e in evs if e["ev"] == "sched"]
-        if tag in ("D", "E"):
+        if tag in ("D", "E", "H"):
             env_events += [e for e in evs if e["ev"] == "envstate"]
         for c, o in pairs_of(evs):
             c = dict(c); o = dict(o)
